@@ -238,8 +238,32 @@ class Interp:
 
     st_Nonlocal = st_Global
 
+    EXIT_CALLS = ("sys.exit", "builtins.exit", "builtins.quit", "os._exit",
+                  "os.abort")
+
+    def _is_exit_function(self, fn: Optional[Function]) -> bool:
+        """evo helper whose body ends in sys.exit (e.g. main_traj.die)"""
+        if fn is None or not fn.node.body:
+            return False
+        last = fn.node.body[-1]
+        if isinstance(last, ast.Expr) and isinstance(last.value, ast.Call):
+            try:
+                return ast.unparse(last.value.func) in ("sys.exit", "exit")
+            except Exception:
+                return False
+        return False
+
     def st_Expr(self, s, frame, live):
+        n0 = len(self.events)
         self.eval(s.value, frame, live)
+        if isinstance(s.value, ast.Call):
+            for e in self.events[n0:]:
+                if e.kind == "call" and e.depth == frame.depth and \
+                        e.node is s.value and (
+                            e.data.get("name") in self.EXIT_CALLS or
+                            self._is_exit_function(e.data.get("target"))):
+                    self.emit("exit", s, live, frame)
+                    return FALSE
         return live
 
     def st_Import(self, s, frame, live):
@@ -595,7 +619,7 @@ class Interp:
         it = self.eval(s.iter, frame, live)
         itu = self.unname(it)
         if itu.op in ("tuple", "list") and 0 < len(itu.args) <= 8 and \
-                all(self._is_literal(x) for x in itu.args) and \
+                not any(x.op == "star" for x in itu.args) and \
                 not s.orelse and not any(
                     isinstance(n, (ast.Break, ast.Continue))
                     for st in s.body for n in ast.walk(st)):
